@@ -202,3 +202,18 @@ package phase2
 //@ func execNetworkSimplex
 //@   requires g != nil && len(g.Nodes) >= 1
 //@   ensures[nonneg|C01] forall j int :: 0 <= j && j < len(g.Nodes) ==> g.Nodes[j].Layer >= 0
+
+// phase2.Alg.Process (C01): the layers the layerers hand back are used as indices into the band list. Safe because both
+// layerers end with layers >= 0 (execLongestPath: ensures[nonneg]; execNetworkSimplex: ensures[nonneg]) and the list is
+// sized by the largest layer. A single node keeps the layer it came with.
+//@ func Alg.Process
+//@   requires[|C01] g != nil && len(g.Nodes) >= 1 && (alg == LongestPath || alg == NetworkSimplex)
+//@   requires[|C01] forall j int :: 0 <= j && j < len(g.Nodes) ==> g.Nodes[j] != nil && g.Nodes[j].Layer >= 0
+//@   requires[|C01] alg == LongestPath && len(g.Nodes) != 1 ==> nodesClosed(g) && outWF() && acyclicByTopo()
+//@   loop range(g.Nodes)#1 index a
+//@     invariant[|C01] size >= 0 && (forall j int :: 0 <= j && j < a ==> g.Nodes[j].Layer <= size)
+//@   loop range(g.Nodes)#2 index b
+//@     invariant[|C01] len(ls) == size && allocatedArr(ls)
+//@     invariant[|C01] forall k int :: 0 <= k && k < len(ls) && ls[k] != nil ==> !loopold(allocated(now(ls[k]))) && (arr(ls[k].Nodes) == 0 || !loopold(allocatedArr(now(ls[k].Nodes))))
+//@     invariant[|C01] forall t []*Node, j int :: loopold(allocatedArr(t)) ==> t[j] == loopold(t[j])
+//@     invariant[|C01] forall j int :: 0 <= j && j < len(g.Nodes) ==> 0 <= g.Nodes[j].Layer && g.Nodes[j].Layer < size
